@@ -461,7 +461,11 @@ func (vs *ValidatorStore) GetEndBlockUpdate(ctx *ValidatorContext, req types.Req
 
 			// delete validator who's power is 0, unless it was staked again in this block
 			current, _ := vs.Get(validator.Address)
-			if validator.Power <= 0 && current != nil && current.Power <= 0 {
+			// the record (public key) is needed to purge the validator, keep it while the validator is or may
+			// still get into tendermint's set: an update sent at block h shows up in the last commit at h+3
+			_, inSet := vs.lastActive[string(addr)]
+			settled := validatorStatus != nil && !validatorStatus.IsActive && height >= validatorStatus.Height+2
+			if validator.Power <= 0 && current != nil && current.Power <= 0 && !inSet && settled {
 				vKey := append(vs.prefix, validator.Address.Bytes()...)
 				fmt.Println("Deleting :", validator.Address.String())
 				//TODO: validator delete will not properly delete the item because of state implementation
